@@ -45,6 +45,7 @@ func catchImpls(c *core.Ctx, pkg string) []*catchImpl {
 	// method such an interface asks for (a helper type that merely offers catch/errch-shaped methods to the
 	// implementations - a shared failure policy - is reached through them, by inlining, and is not one itself)
 	var roleIfaces [][]string
+	var roleTypes []*types.Interface
 	for _, n := range names {
 		t, ok := sp.Members[n].(*ssa.Type)
 		if !ok {
@@ -65,7 +66,41 @@ func catchImpls(c *core.Ctx, pkg string) []*catchImpl {
 		}
 		if has {
 			roleIfaces = append(roleIfaces, ms)
+			roleTypes = append(roleTypes, it)
 		}
+	}
+	// an interface that is only a part of another role interface (`recovery` embedded in F and FF: every method of
+	// it is a method of the other with the identical signature) does not define the closed world
+	{
+		var maximal [][]string
+		for i, a := range roleTypes {
+			part := false
+			for j, b := range roleTypes {
+				if i == j || b.NumMethods() <= a.NumMethods() {
+					continue
+				}
+				all := true
+				for k := 0; k < a.NumMethods(); k++ {
+					am := a.Method(k)
+					found := false
+					for l := 0; l < b.NumMethods(); l++ {
+						if bm := b.Method(l); bm.Name() == am.Name() && types.Identical(bm.Type(), am.Type()) {
+							found = true
+						}
+					}
+					if !found {
+						all = false
+					}
+				}
+				if all {
+					part = true
+				}
+			}
+			if !part {
+				maximal = append(maximal, roleIfaces[i])
+			}
+		}
+		roleIfaces = maximal
 	}
 	implements := func(named *types.Named) bool {
 		if len(roleIfaces) == 0 {
